@@ -160,6 +160,14 @@ pub fn set_mtime(path: &Path, secs: i64) -> bool {
     unsafe { libc::utimensat(libc::AT_FDCWD, c.as_ptr(), ts.as_ptr(), 0) == 0 }
 }
 
+/// like `set_mtime`, with a sub-second part (the package records whole seconds: the part is dropped)
+pub fn set_mtime_ns(path: &Path, secs: i64, nanos: i64) -> bool {
+    use std::os::unix::ffi::OsStrExt;
+    let c = std::ffi::CString::new(path.as_os_str().as_bytes()).unwrap();
+    let ts = [libc::timespec { tv_sec: secs, tv_nsec: nanos }, libc::timespec { tv_sec: secs, tv_nsec: nanos }];
+    unsafe { libc::utimensat(libc::AT_FDCWD, c.as_ptr(), ts.as_ptr(), 0) == 0 }
+}
+
 /// Write the source files of a configuration into `dir` (idempotent); returns their paths.
 pub fn materialize_sources(cfg: &BuildCfg, dir: &Path) -> Vec<PathBuf> {
     use std::os::unix::fs::PermissionsExt;
@@ -169,7 +177,9 @@ pub fn materialize_sources(cfg: &BuildCfg, dir: &Path) -> Vec<PathBuf> {
         let p = dir.join(format!("src{i}"));
         std::fs::write(&p, file_content(f)).expect("write source file");
         std::fs::set_permissions(&p, std::fs::Permissions::from_mode(f.source_perm)).expect("chmod");
-        assert!(set_mtime(&p, f.mtime), "utimensat");
+        // whole seconds for some files, late fractions of the second for others
+        let nanos = [0i64, 750_000_000, 999_999_999, 500_000_000][(f.content_seed % 4) as usize];
+        assert!(set_mtime_ns(&p, f.mtime, if f.mtime >= 0 { nanos } else { 0 }), "utimensat");
         out.push(p);
     }
     out
@@ -443,6 +453,8 @@ fn scalar_setter(cfg: &BuildCfg, b: PackageBuilder, i: usize) -> PackageBuilder 
             None => b,
         },
         10 => match cfg.source_date {
+            // the setter is called twice in some configurations (a later date first): the last call counts
+            Some(t) if cfg.call_order_seed.map(|s| s % 3 == 0).unwrap_or(false) => b.source_date(t.saturating_add(100_000_000)).source_date(instant(cfg.time_form, t)),
             Some(t) => b.source_date(instant(cfg.time_form, t)),
             None => b,
         },
